@@ -248,6 +248,10 @@ func analyse(repo, tier string, nocache bool) *RunResult {
 		}
 	}
 	rr := &RunResult{Digest: digest, Tier: tier, Files: nfiles, Props: map[string]*PropResult{}, GeneratedAt: time.Now().UTC().Format(time.RFC3339)}
+	if err := fixtureCheck(); err != nil {
+		rr.FatalError = err.Error()
+		return rr
+	}
 	t0 := time.Now()
 	a, err := Load(repo, "")
 	if err != nil {
